@@ -741,7 +741,18 @@ def r6(ctx):
     ctx.need(len(c) == 1, "calculate_distance_matrix.main: call not found")
     th = inline(kwargs(c[0]).get("thetas"), env, depth=1)
     t = U(th).replace(" ", "")
-    ok = t.endswith(".concat([thetas_holder.load_h5(x)forxinargs.thetas])") or t.endswith(".concat([ThetaHolder.load_h5(x)forxinargs.thetas])")
+    # <holder>.concat([<holder>.load_h5(x) for x in args.thetas]) with <holder> the ThetaHolder class or a local instance of it, whatever it is called
+    ok = False
+    if isinstance(th, ast.Call) and attr_tail(th) == "concat" and len(th.args) == 1 and isinstance(th.args[0], ast.ListComp) and len(th.args[0].generators) == 1:
+        lc = th.args[0]
+        g_ = lc.generators[0]
+        def holder(e):
+            if U(e) == "ThetaHolder":
+                return True
+            d_ = env.get(e.id) if isinstance(e, ast.Name) else None
+            return isinstance(d_, ast.Call) and U(d_.func) == "ThetaHolder"
+        ok = not g_.ifs and U(g_.iter) == "args.thetas" and isinstance(g_.target, ast.Name) and isinstance(lc.elt, ast.Call) and attr_tail(lc.elt) == "load_h5" \
+            and [U(a_) for a_ in lc.elt.args] == [g_.target.id] and holder(lc.elt.func.value) and holder(th.func.value)
     kw = kwargs(c[0])
     ok = ok and U(kw.get("chunk_index")) == "args.chunk_index" and U(kw.get("n_chunks")) == "args.n_chunks"
     ctx.check("R6", f"{m.site()}::samples-in-argument-order", ok, "theta files are loaded and concatenated in argument order; chunk arguments wired",
